@@ -37,12 +37,21 @@ type Value struct {
 	F   []*Value
 	Arr *Term
 	Len *Term
+	Cap *Term // slice capacity (nil = same as Len, for values built by older code paths)
 	Typ *Term
 	Fn  *FuncVal
 	// Ptr alias: pointer to a slice element or to a field, represented syntactically
 	Alias *lvalue
 	// spec-only kinds
 	SpecKind string // "mmap", "set", "seq" (S holds an array term; Len for seq)
+}
+
+// capTerm returns the capacity (defaults to the length).
+func (v *Value) capTerm() *Term {
+	if v.Cap != nil {
+		return v.Cap
+	}
+	return v.Len
 }
 
 func scalar(t *Term, ty types.Type) *Value { return &Value{K: VScalar, S: t, T: ty} }
@@ -127,7 +136,7 @@ func leavesOf(t types.Type) []leaf {
 	}
 	switch u := t.Underlying().(type) {
 	case *types.Slice:
-		return []leaf{{"#arr", SInt}, {"#len", SInt}}
+		return []leaf{{"#arr", SInt}, {"#len", SInt}, {"#cap", SInt}}
 	case *types.Interface:
 		return []leaf{{"#typ", SInt}, {"#val", SInt}}
 	case *types.Struct:
@@ -156,7 +165,9 @@ func buildValue(t types.Type, prefix string, get func(path string, s *Sort) *Ter
 		return &Value{K: VScalar, T: t, S: get(prefix, s)}
 	}
 	switch u := t.Underlying().(type) {
-	case *types.Slice, *types.Array:
+	case *types.Slice:
+		return &Value{K: VSlice, T: t, Arr: get(prefix+"#arr", SInt), Len: get(prefix+"#len", SInt), Cap: get(prefix+"#cap", SInt)}
+	case *types.Array:
 		return &Value{K: VSlice, T: t, Arr: get(prefix+"#arr", SInt), Len: get(prefix+"#len", SInt)}
 	case *types.Interface:
 		return &Value{K: VIface, T: t, Typ: get(prefix+"#typ", SInt), S: get(prefix+"#val", SInt)}
@@ -190,6 +201,9 @@ func forEachLeaf(v *Value, prefix string, f func(path string, t *Term)) {
 	case VSlice:
 		f(prefix+"#arr", v.Arr)
 		f(prefix+"#len", v.Len)
+		if _, isArr := v.T.Underlying().(*types.Array); !isArr {
+			f(prefix+"#cap", v.capTerm())
+		}
 	case VIface:
 		f(prefix+"#typ", v.Typ)
 		f(prefix+"#val", v.S)
@@ -304,7 +318,7 @@ func valueIte(c *Term, a, b *Value) *Value {
 	case VScalar:
 		return &Value{K: VScalar, T: a.T, S: Ite(c, a.S, b.S), SpecKind: a.SpecKind, Len: iteOpt(c, a.Len, b.Len)}
 	case VSlice:
-		return &Value{K: VSlice, T: a.T, Arr: Ite(c, a.Arr, b.Arr), Len: Ite(c, a.Len, b.Len)}
+		return &Value{K: VSlice, T: a.T, Arr: Ite(c, a.Arr, b.Arr), Len: Ite(c, a.Len, b.Len), Cap: Ite(c, a.capTerm(), b.capTerm())}
 	case VIface:
 		return &Value{K: VIface, T: a.T, Typ: Ite(c, a.Typ, b.Typ), S: Ite(c, a.S, b.S)}
 	case VStruct, VTuple:
@@ -435,7 +449,7 @@ func typeConstraints(v *Value) []*Term {
 				out = append(out, Ge(v.S, mkInt(0)))
 			}
 		case VSlice:
-			out = append(out, Ge(v.Len, mkInt(0)), Ge(v.Arr, mkInt(0)), Implies(Eq(v.Arr, mkInt(0)), Eq(v.Len, mkInt(0))))
+			out = append(out, Ge(v.Len, mkInt(0)), Ge(v.Arr, mkInt(0)), Implies(Eq(v.Arr, mkInt(0)), Eq(v.Len, mkInt(0))), Ge(v.capTerm(), v.Len))
 		case VIface:
 			out = append(out, Ge(v.Typ, mkInt(0)), Implies(Eq(v.Typ, mkInt(0)), Eq(v.S, mkInt(0))))
 		case VStruct, VTuple:
